@@ -573,6 +573,19 @@ func genRawrd(r *Rng) (bound *net.UDPAddr, buflen int, frames [][]byte, tags []s
 		f, k := genFrame(r, bound, buflen)
 		frames = append(frames, f)
 		tags = append(tags, k)
+		if r.Chance(1, 5) {
+			// the same frame again - a broadcast delivered once per lower device of a bond
+			// or bridge, a retransmission with an unchanged IP header - directly or after one
+			// other frame: every well-formed frame of the sequence is delivered, repeats
+			// included (seeded change C18-14: "duplicate" suppression by header comparison)
+			if r.Chance(1, 2) && i+1 < n {
+				g, k2 := genFrame(r, bound, buflen)
+				frames = append(frames, g)
+				tags = append(tags, k2)
+			}
+			frames = append(frames, append([]byte{}, f...))
+			tags = append(tags, "repeated-frame")
+		}
 	}
 	if bound == nil {
 		tags = append(tags, "bound=none")
